@@ -29,9 +29,9 @@ def kind_domain(kind, vals):
 
 
 def make_operand(kind, v):
-    if kind == "S":
+    if kind in ("S", "Z"):
         return H.rt.PrivVal(v)
-    if kind == "K":
+    if kind in ("K", "V", "W", "M"):
         return v
     if kind == "B":
         return H.boolean.PrivValBool(v)
